@@ -528,7 +528,8 @@ class simplify_chained_calls(FuncADLNodeTransformer):
         "Do the lookup for the dict"
         # We can only tell which entry is meant if every key is a constant
         if all(isinstance(k, ast.Constant) for k in v.keys):
-            for index, value in enumerate(v.keys):
+            # As in python, the last of several entries with an equal key is the one that counts.
+            for index, value in reversed(list(enumerate(v.keys))):
                 assert isinstance(value, ast.Constant)
                 if value.value == s:
                     return copy.deepcopy(v.values[index])
